@@ -38,6 +38,8 @@ structure Payload where
   term : Option (Snap × Nat × Bytes) := none
   /-- `len(payload) == 0` -/
   empty : Bool := true
+  /-- the bytes are the JSON literal `null` (unmarshals into a nil map) -/
+  isNull : Bool := false
 deriving DecidableEq, Repr
 
 structure MsgKey where
@@ -241,7 +243,7 @@ def normalize (r : RawEvent) : Option Event :=
     let vis := if vis = [] then visPublic else vis
     some ⟨⟨ch, r.ct, no⟩, id, key, t, vis, r.occ, r.pl, r.upd⟩
 
-inductive Err | ok | invalid | cachemiss | notleader | backpressure
+inductive Err | ok | invalid | cachemiss | notleader | backpressure | panic
 deriving DecidableEq, Repr
 
 /-- table-level entry point on a raw event -/
@@ -331,7 +333,7 @@ def oldestTerminal : List (MsgKey × Session) → Option (MsgKey × Nat)
 /-- `sessionLocked`: admission of a (possibly new) session.  A full cache evicts the least recently
     touched session whose lanes are ALL terminal; if there is none the event is refused
     (`ErrBackpressured`) — a session with an open lane is never evicted. -/
-def admit (cache : List (MsgKey × Session)) (cap : Nat) (mk : MsgKey) : Option (List (MsgKey × Session)) :=
+def admitSession (cache : List (MsgKey × Session)) (cap : Nat) (mk : MsgKey) : Option (List (MsgKey × Session)) :=
   match aget mk cache with
   | some _ => some cache
   | none =>
@@ -425,7 +427,7 @@ def nstep (n : Node) (r : RawEvent) : Node × Err × Option Result :=
     if !n.leads ev.msg.ch then (n, .notleader, none) else
     match ev.ty with
     | .open_ | .delta | .snapshot =>
-      match admit n.cache n.cap ev.msg with
+      match admitSession n.cache n.cap ev.msg with
       | none => (n, .backpressure, none)
       | some c0 =>
         let (c, res) := appendCached c0 (n.clock + 1) ev
@@ -446,6 +448,29 @@ def nstep (n : Node) (r : RawEvent) : Node × Err × Option Result :=
           | some st => if st.snap = .none then ev else { ev with pl := mergeTerminal ev.pl st.snap (snapIsJSON st.snap) }
       let (db', res) := append n.db ev'
       ({ n with db := db', cache := markPersisted n.cache (n.clock + 1) ev' res, clock := n.clock + 1 }, .ok, some res)
+
+/-- `mergeMessageEventTerminalPayload` panics ("assignment to entry in nil map") when the payload is
+    the JSON literal `null` and there is a non-empty cached snapshot to merge: json.Unmarshal sets
+    the body map to nil.  Reached from the close/error/cancel path (the event's own cached lane)
+    and from the finish flush (any open cached lane with a snapshot), before anything is proposed. -/
+def panics (n : Node) (r : RawEvent) : Bool :=
+  match normalize r with
+  | none => false
+  | some ev =>
+    n.leads ev.msg.ch && ev.pl.isNull &&
+    (match ev.ty with
+     | .open_ | .delta | .snapshot => false
+     | .finish => (openStates n.cache ev.msg).any fun kl => kl.2.snap != .none
+     | _ => match aget ev.msg n.cache with
+       | none => false
+       | some s => match aget ev.key s.states with
+         | none => false
+         | some st => st.snap != .none)
+
+/-- `Node.AppendMessageEvent` including the panic of the unchanged tree (recovered by the caller:
+    nothing was proposed, the cache is untouched) -/
+def nstepP (n : Node) (r : RawEvent) : Node × Err × Option Result :=
+  if panics n r then (n, .panic, none) else nstep n r
 
 /-- loss of the leader's cache (restart, leadership move) -/
 def loseCache (n : Node) : Node := { n with cache := [] }
